@@ -693,4 +693,127 @@ theorem roundtrip_aux : ∀ (chunks : List Bytes) (fuel : Nat) (rest : Bytes),
         rw [ih f rest (fun c hc => hlen c (by simp [hc])) (by simp at hf ⊢; omega)]
         simp
 
+/-! ### completeness: strict RFC streams without chunk extensions are accepted -/
+
+theorem readLine_digits (ds tail : Bytes) (hne : ds ≠ []) (hlen : ds.length ≤ 16)
+    (hall : ∀ b ∈ ds, isHexDig b = true) :
+    readLine (ds ++ 13 :: 10 :: tail) = .ok (ds, tail) := by
+  have hsplit : splitLF (ds ++ 13 :: 10 :: tail) = some (ds ++ [13], tail) := by
+    have : ds ++ 13 :: 10 :: tail = (ds ++ [13]) ++ 10 :: tail := by simp
+    rw [this]
+    apply splitLF_append
+    intro b hb
+    rcases List.mem_append.mp hb with hb | hb
+    · exact isHexDig_not_lf b (hall b hb)
+    · have : b = 13 := by simpa using hb
+      subst this; decide
+  unfold readLine
+  simp only [hsplit]
+  have : ¬ ((ds ++ [13]).length + 1 ≥ maxLineLength) := by
+    simp [maxLineLength]; omega
+  simp only [this, if_false]
+  congr 2
+  rw [List.append_assoc]
+  apply trimTrailing_append
+  · intro b hb
+    have : b = 13 ∨ b = 10 := by simpa using hb
+    rcases this with rfl | rfl <;> decide
+  · intro x hx
+    have : x ∈ ds := List.mem_of_getLast? hx
+    exact isHexDig_not_space x (hall x this)
+
+theorem complete_aux : ∀ (f : Nat) (s b r : Bytes), rfcAux false f s = .ok b r →
+    ∀ f3 r', noExtChunks f3 s = some r' →
+    ∀ f2, s.length < f2 → decodeAux f2 s = ⟨b, .eof, r⟩ := by
+  intro f
+  induction f with
+  | zero => intro s b r h; simp [rfcAux] at h
+  | succ f ih =>
+    intro s b r h f3 r' hst f2 hf2
+    cases f3 with
+    | zero => simp [noExtChunks] at hst
+    | succ g3 =>
+    cases f2 with
+    | zero => omega
+    | succ g =>
+    rw [rfcAux] at h
+    rw [noExtChunks] at hst
+    simp only [] at h
+    have hall : ∀ x ∈ s.takeWhile isHexDig, isHexDig x = true := fun x hx => mem_takeWhile_p _ _ x hx
+    cases hdw : s.dropWhile isHexDig with
+    | nil => simp [hdw] at hst
+    | cons a t =>
+      cases t with
+      | nil => simp [hdw] at hst
+      | cons c r2 =>
+        simp only [hdw] at hst h
+        by_cases hac : a.toNat = 13 ∧ c.toNat = 10
+        · simp only [hac, and_self, if_true] at hst
+          have ha : a = 13 := UInt8.toNat_inj.mp (by simpa using hac.1)
+          have hc : c = 10 := UInt8.toNat_inj.mp (by simpa using hac.2)
+          subst ha; subst hc
+          have hs : s = s.takeWhile isHexDig ++ 13 :: 10 :: r2 := by
+            rw [← hdw, List.takeWhile_append_dropWhile]
+          generalize hds : s.takeWhile isHexDig = ds at *
+          by_cases h0 : ds.length = 0
+          · simp [h0] at h
+          · simp only [h0, if_false] at h
+            by_cases h16 : ds.length > 16
+            · simp [h16] at h
+            · simp only [h16, if_false] at h
+              have hse : skipExt ((13 :: 10 :: r2 : Bytes).length + 1) (13 :: 10 :: r2) = some (13 :: 10 :: r2) := by
+                have : (13 : UInt8).toNat ≠ 59 := by decide
+                simp [skipExt, this]
+              have hle : lineEnd false (13 :: 10 :: r2) = some r2 := by
+                have h1 : (13 : UInt8).toNat = 13 := rfl
+                have h2 : (10 : UInt8).toNat = 10 := rfl
+                simp [lineEnd, h1, h2]
+              simp only [hse, hle] at h
+              have hne : ds ≠ [] := fun e => h0 (by rw [e]; rfl)
+              have hrl := readLine_digits ds r2 hne (by omega) hall
+              have hpx : parseHexUint ds = .ok (BitVec.ofNat 64 (hexNat ds)) := by
+                rw [parseHex_exact]
+                refine ⟨by omega, by omega, hall, ?_⟩
+                rw [BitVec.toNat_ofNat]
+                exact Nat.mod_eq_of_lt (hexNat_lt ds (by omega) hall)
+              have hnat : (BitVec.ofNat 64 (hexNat ds)).toNat = hexNat ds := by
+                rw [BitVec.toNat_ofNat]
+                exact Nat.mod_eq_of_lt (hexNat_lt ds (by omega) hall)
+              rw [hs]
+              simp only [decodeAux, hrl, hpx, hnat]
+              by_cases hz : hexNat ds = 0
+              · simp only [hz, if_true] at h ⊢
+                injection h with h1 h2
+                subst h1; subst h2; rfl
+              · simp only [hz, if_false] at h hst ⊢
+                by_cases hlt : r2.length < hexNat ds
+                · simp [hlt] at h
+                · simp only [hlt, if_false] at h ⊢
+                  cases hd : r2.drop (hexNat ds) with
+                  | nil => simp [hd] at h
+                  | cons a' t' =>
+                    cases t' with
+                    | nil => simp [hd] at h
+                    | cons b' r3 =>
+                      simp only [hd] at h ⊢
+                      by_cases hcc : a'.toNat = 13 ∧ b'.toNat = 10
+                      · simp only [hcc, and_self, if_true] at h ⊢
+                        cases hrec : rfcAux false f r3 with
+                        | reject w => simp [hrec] at h
+                        | ok body rest =>
+                          simp only [hrec] at h
+                          injection h with h1 h2
+                          have hdrop : r2.drop (hexNat ds + 2) = r3 := by
+                            rw [← List.drop_drop, hd]; rfl
+                          rw [hdrop] at hst
+                          have hlen : r3.length + 2 ≤ r2.length := by
+                            have := congrArg List.length hd
+                            simp at this; omega
+                          have hsl : r2.length + 2 ≤ s.length := by rw [hs]; simp
+                          rw [ih r3 body rest hrec g3 r' hst g (by omega)]
+                          simp only []
+                          rw [← h1, ← h2]
+                      · simp [hcc] at h
+        · simp [hac] at hst
+
 end BfeVerif.C23
